@@ -386,7 +386,7 @@ def run(ctx):
     cfgs = config_set()
     for c in (cfgs[:2] if quick else cfgs):
         tasks.append((task_config, [c]))
-    prefixes = PREFIXES[:4] if quick else PREFIXES
+    prefixes = PREFIXES       # all prior states in both tiers (the quick tier thins the flag words of RequestName instead)
     for p in prefixes:
         reqs = requests_for(p)
         if quick:
